@@ -248,10 +248,14 @@ func RunCheck(id, tier string) int {
 	viol := map[string]*Violation{}
 	var rows []unitRow
 	var fatals []string
+	var crashed []string
 	var inex []string
 	for r := range results {
 		if r.Fatal != "" {
 			fatals = append(fatals, r.Unit+": "+r.Fatal)
+			if strings.HasPrefix(r.Fatal, "worker died") && r.Unit != "" {
+				crashed = append(crashed, r.Unit)
+			}
 			continue
 		}
 		tot.Evaluations += r.Evaluations
@@ -290,6 +294,23 @@ func RunCheck(id, tier string) int {
 		rows = append(rows, unitRow{r.Unit, r.Evaluations, r.Nontrivial, r.WallS, r.Inexhaust})
 	}
 	sort.Slice(rows, func(i, j int) bool { return rows[i].Unit < rows[j].Unit })
+
+	// a worker that died: for a property that forbids bringing the process down, find the case
+	if chk.OwnsCrashes {
+		sort.Strings(crashed)
+		for i, u := range crashed {
+			if i >= 4 {
+				break // each diagnosis re-runs a unit; the first few crashing units are enough for a verdict
+			}
+			if v := diagnoseCrash(exe, chk, id, tier, u); v != nil {
+				if old, ok := viol[v.Sig]; ok {
+					old.Count++
+				} else {
+					viol[v.Sig] = v
+				}
+			}
+		}
+	}
 
 	// regression cases of repaired defects: a fixed entry suppresses nothing, its witnesses are
 	// replayed (fresh process each) and any violation is reported like any other
@@ -351,6 +372,9 @@ func RunCheck(id, tier string) int {
 			cmd := exec.Command(exe, "replay", "-")
 			cmd.Stdin = bytes.NewReader(d)
 			outb, _ := cmd.CombinedOutput()
+			if v.Clause == "fatal" {
+				return crashedFatally(cmd, outb), strings.TrimSpace(trunc(string(outb), 600))
+			}
 			return cmd.ProcessState != nil && cmd.ProcessState.ExitCode() == 1, strings.TrimSpace(string(outb))
 		}
 		ok := true
@@ -493,6 +517,93 @@ func RunCheck(id, tier string) int {
 		return 1
 	}
 	return 0
+}
+
+// crashedFatally: the process ended through a Go runtime fatal error (stack overflow, concurrent
+// map access, out of memory ...), which no recover can intercept.
+func crashedFatally(cmd *exec.Cmd, out []byte) bool {
+	if cmd.ProcessState == nil {
+		return false
+	}
+	code := cmd.ProcessState.ExitCode()
+	return code != 0 && code != 1 && (bytes.Contains(out, []byte("fatal error:")) || bytes.Contains(out, []byte("goroutine stack exceeds")))
+}
+
+func fatalClass(out []byte) string {
+	for _, line := range strings.Split(string(out), "\n") {
+		if strings.HasPrefix(line, "fatal error:") || strings.Contains(line, "goroutine stack exceeds") {
+			return AbstractMsg(strings.TrimSpace(line))
+		}
+	}
+	return "?"
+}
+
+// diagnoseCrash re-runs a unit whose worker died, with the case journal switched on, and turns
+// the last journalled case into a violation of clause "fatal" (minimised through sub-processes,
+// because every evaluation of a crashing case costs a process).
+func diagnoseCrash(exe string, chk *Check, id, tier, unit string) *Violation {
+	os.MkdirAll(filepath.Join(VerifDir(), ".work"), 0o755)
+	jf, err := os.CreateTemp(filepath.Join(VerifDir(), ".work"), "journal-*")
+	if err != nil {
+		return nil
+	}
+	jpath := jf.Name()
+	jf.Close()
+	defer os.Remove(jpath)
+	cmd := exec.Command(exe, "worker", id, tier)
+	cmd.Env = append(os.Environ(), "GOMAXPROCS=2", "VERIF_JOURNAL="+jpath)
+	cmd.Stdin = strings.NewReader(unit + "\n")
+	var errb bytes.Buffer
+	cmd.Stderr = &errb
+	cmd.Stdout = nil
+	done := make(chan struct{})
+	go func() { cmd.Run(); close(done) }()
+	select {
+	case <-done:
+	case <-time.After(15 * time.Minute):
+		cmd.Process.Kill()
+		<-done
+		return nil
+	}
+	if !crashedFatally(cmd, errb.Bytes()) {
+		return nil // did not crash again (or not through the runtime): stays a worker failure
+	}
+	data, _ := os.ReadFile(jpath)
+	lines := strings.Split(strings.TrimSpace(string(data)), "\n")
+	var c Case
+	if len(lines) == 0 || json.Unmarshal([]byte(lines[len(lines)-1]), &c) != nil {
+		return nil
+	}
+	class := "process-crash " + fatalClass(errb.Bytes())
+	crashes := func(cand Case) (bool, string) {
+		rp := ReplayFile{Property: id, Clause: "fatal", Class: class, Case: cand, Original: cand, Instr: chk.Instr}
+		d, _ := json.Marshal(rp)
+		rc := exec.Command(exe, "replay", "-")
+		rc.Stdin = bytes.NewReader(d)
+		outb, _ := rc.CombinedOutput()
+		return crashedFatally(rc, outb) && "process-crash "+fatalClass(outb) == class, trunc(string(outb), 400)
+	}
+	ok, obs := crashes(c)
+	if !ok {
+		return nil // the case alone does not crash a fresh process
+	}
+	min, budget := c, 60
+	if chk.Shrink != nil {
+		for progressed := true; progressed && budget > 0; {
+			progressed = false
+			for _, cand := range chk.Shrink(min) {
+				if budget--; budget < 0 {
+					break
+				}
+				if again, o := crashes(cand); again {
+					min, obs, progressed = cand, o, true
+					break
+				}
+			}
+		}
+	}
+	return &Violation{Property: id, Obs: Obs{Clause: "fatal", Class: class, Observed: obs, Expected: "the call returns (a result or an error)"},
+		Case: c, Min: min, MinObs: obs, MinExp: "the call returns (a result or an error)", Sig: Signature("fatal", class, min), Count: 1, Unit: unit}
 }
 
 func trunc(s string, n int) string {
